@@ -1831,6 +1831,19 @@ package rtcp
 //@   bounded[C10] genPacketList
 //@   ensures stable: err == nil && err2 == nil && same
 
+//@ func lemmaNackRange(p NackPair, stopAt int) (visited []uint16, list []uint16)
+//@   lemma
+//@   trusted
+//@   bounded[C12] genNackRange
+//@   ensures visits: seqEqU16s(visited, specNackPrefix(p, stopAt))
+//@   ensures list: seqEqU16s(list, specNackList(p))
+
+//@ func lemmaNackPairs(seqs []uint16) (pairs []NackPair)
+//@   lemma
+//@   trusted
+//@   bounded[C12] genNackSeqs
+//@   ensures covers: specNackCovers(pairs, seqs)
+
 //@ func lemmaReencodeSR(raw []byte) (p SenderReport, q SenderReport, err error, err2 error, err3 error)
 //@   lemma
 //@   requires frame: len(raw) <= 4*65536
